@@ -90,7 +90,7 @@ Definition on_elem (o : op) (s : ostate) (x : elem) : ostate * list elem * statu
       | _ => (s, [x], Continue)
       end
   | OPeek, _ | OBuffer _, _ => (s, [x], Continue)
-  | OHead n, SCount c => if (n <=? c)%nat then (s, [], Stop) else (SCount (S c), [x], Continue)
+  | OHead n, SCount c => (SCount (S c), [x], if (n <=? S c)%nat then Stop else Continue)   (* yield, count, stop at n: the n+1-th element is never pulled (n >= 1 asserted by the constructor) *)
   | OTail n, SList w => (SList (push_window n w x), [], Continue)
   | OBatch n, SList b =>
       let b' := b ++ [x] in
